@@ -8,7 +8,9 @@ Import ListNotations.
 Open Scope Z_scope.
 
 (* tie to the sources (translator harness/gen_c18): position of every cache branch, which calls get the branch and
-   which the outer context, under which test the branch is written — as transcribed in M_Cache.v *)
+   which the outer context, under which test the branch is written — as transcribed in M_Cache.v; and: in every
+   attestation handler each error return precedes the first store write (a failing handler has written nothing on this
+   code), OutgoingTxBatchExecuted / SavePendingExecuteClaim can only panic *)
 Theorem C18_source_shape : source_shapes_ok = true.
 Proof. exact source_shapes. Qed.
 Print Assumptions C18_source_shape.
@@ -20,6 +22,25 @@ Theorem C18_attestation_failed_handler :
   try_attestation S handler mark_observed cleanup pre = (att_designated S mark_observed cleanup pre, false).
 Proof. exact att_failed_handler. Qed.
 Print Assumptions C18_attestation_failed_handler.
+
+(* the whole vote transaction (MsgClaim -> Attest): a handler ERROR is tolerated — vote recorded, event observed,
+   nothing of the handler — …  *)
+Theorem C18_attestation_vote_tx_error :
+  forall S (handler : S -> result S) mark_observed cleanup hp record_vote finish_vote pre x,
+  hp (mark_observed (record_vote pre)) = Some (Err x) ->
+  claim_tx S mark_observed cleanup hp record_vote finish_vote pre =
+  (finish_vote (att_designated S mark_observed cleanup (record_vote pre)), 1).
+Proof. exact claim_tx_error. Qed.
+Print Assumptions C18_attestation_vote_tx_error.
+
+(* … a handler PANIC (unknown batch, oracle-set mismatch) is not: no branch catches it, the transaction fails, the state is
+   exactly what it was — the vote is not recorded and the event is NOT marked observed *)
+Theorem C18_attestation_panic_fails_vote :
+  forall S mark_observed cleanup (hp : S -> option (result S)) record_vote finish_vote pre,
+  hp (mark_observed (record_vote pre)) = None ->
+  claim_tx S mark_observed cleanup hp record_vote finish_vote pre = (pre, 2).
+Proof. exact claim_tx_panic. Qed.
+Print Assumptions C18_attestation_panic_fails_vote.
 
 (* proposal: failure of the message at ANY position, after any number of succeeding messages *)
 Theorem C18_gov_failed_message_any_position :
